@@ -58,7 +58,7 @@ RICH = {"co_argcount": 2, "co_posonlyargcount": 1, "co_kwonlyargcount": 1, "co_n
 RICH_VARS = [b"a", b"b", b"c", b"d", b"e"]
 
 
-def wrap(ver, magic, vbytes, vtoks, rich=False):
+def wrap(ver, magic, vbytes, vtoks, rich=False, code=None):
     par = par_of(ver, magic)
     VALUES = RICH if rich else globals()["VALUES"]
     names = [t_obj(par, b"nm")] if rich else []
@@ -72,7 +72,7 @@ def wrap(ver, magic, vbytes, vtoks, rich=False):
             out += struct.pack("<i" if wide else "<h", VALUES[f])
             toks.append(intlimbs(VALUES[f]))
         elif f == "co_code":
-            b, t = s_obj(par, b"d\x00S\x00d\x01" if rich else b"d\x00S\x00")
+            b, t = s_obj(par, code if code is not None else (b"d\x00S\x00d\x01" if rich else b"d\x00S\x00"))
             out += b
             toks.append(t)
         elif f == "co_consts":
